@@ -221,6 +221,10 @@ class Env(object):
                 # the new object receives an existing object through a collection argument: the existing one gets a
                 # reference to an object that has no row (and, with an automatic key, no primary key) yet
                 if pk in (None, 3):
+                    # a value for every optional unique attribute: a creation that fails later must not leave it behind
+                    for a in e._attrs_:
+                        if a.is_unique and not a.is_pk and not a.is_required and not a.reverse and a.py_type in (int, str):
+                            for v in self.scalar_domain(a)[1:]: ops.append(('create', ename, pk, dict(combos[0], **{a.name: v})))
                     for a in e._attrs_:
                         if a.is_collection and a.reverse is not None:
                             items = self.labels_of(a.py_type.__name__)
@@ -443,7 +447,8 @@ class Exec(object):
         l = self.labels.get(id(obj))
         if l is not None: return l
         root = type(obj)._root_.__name__
-        pk = obj.get_pk()
+        try: pk = obj.get_pk()
+        except AttributeError: return '%s:<unfinished object>' % root      # handed out although its creation failed midway
         l = self.pk2label.get((root, pk))
         if l is None:
             l = '%s:%s' % (root, pk if not isinstance(pk, tuple) else ','.join(map(str, pk)))
@@ -1048,6 +1053,9 @@ def _op_r_indexes(self):
         attrs = key if isinstance(key, tuple) else (key,)
         is_pk = attrs == attrs[0].entity._pk_attrs_
         for k, o in index.items():
+            if getattr(o, '_status_', None) is None or not hasattr(o, '_pkval_'):
+                # an object that never finished its construction (a failed creation) is still registered under a key
+                bad.append('unfinished-object-in-index:%s' % ','.join(a.name for a in attrs)); continue
             if o._status_ in dead and not (o._status_ == 'marked_to_delete' and is_pk):
                 bad.append('dead-object-in-index:%s' % ','.join(a.name for a in attrs)); continue
             if o._status_ in dead: continue
